@@ -134,7 +134,6 @@ impl BollingerBands {
 		r is Ok ==> (exists|src: ValueType| src@ == src_val(candle, self.source)
 			&& #[trigger] konst(self.avg_size as nat, src) =~= r->Ok_0.ma.window.view() && r->Ok_0.st_dev.window.view() =~= konst(self.avg_size as nat, src)),
 //@replace Ok(Self::Instance { ==> Ok(BollingerBandsInstance {
-//@replace T::source(candle, cfg.source) ==> candle.source(cfg.source)
 //@end
 }
 pub open spec fn bb_step(pre: &BollingerBandsInstance, src: ValueType, post: &BollingerBandsInstance, upper: real, middle: ValueType, lower: real, sd: ValueType) -> bool {
